@@ -19,7 +19,7 @@ fn main() {
     exhaustive_register(nth, len, &mut |h| {
         n += 1;
         emit_history(&mut out, &init, h, 1, "x-");
-        if n % 5000 == 1 { out.sample(&format!("exhaustive: (reg 0) {}", calls_sx::<Register<u8>>(h))); }
+        if n % 20000 == 1 { out.sample(&format!("exhaustive: (reg 0) {}", calls_sx::<Register<u8>>(h))); }
     });
     if !th {
         // quick tier: the 5-event layer with two threads
